@@ -42,6 +42,7 @@ def run(S):
     merge(S, D)
     counterparty_commitment_claims(S, D)
     holder_commitment_claims(S, D)
+    late_preimage_claims(S, D)
 
 
 def estimator(E):
@@ -536,3 +537,91 @@ def holder_commitment_claims(S, D):
     S.no_panic(ids[3], E2, pre2, 'no panic for a descriptor with an output index', [b2])
     S.validate(ids[5], E, b, n=4, extra_vectors=[(1, 0, 1), (1, 1, 1), (0, 1, 1), (0, 0, 1)])
     S.validate(ids[5] + '2', E2, b2, n=2, extra_vectors=[(1, 1, 1), (0, 1, 1)])
+
+
+def late_preimage_claims(S, D):
+    """C07.i: ChannelMonitorImpl::get_counterparty_output_claims_for_preimage - the preimage arrives after the
+    counterparty's commitment confirmed: EVERY HTLC output it unlocks gets a claim (several HTLCs can share one payment
+    hash: the parts of an MPP payment over one channel). Whole function on a list of <= 2 HTLCs; keys, hashing, cloning
+    and the package constructors are stubs."""
+    import re
+    ids = ['C07.i.every_matching_htlc_claimed', 'C07.i.nopanic', 'C07.i.witness', 'C07.i.validate']
+    if all(S._skip(o) for o in ids):
+        return
+    NP = 2
+    f = S.fn('get_counterparty_output_claims_for_preimage')
+    E = S.engine(unwind=NP + 2)
+    E.slice_cap = NP
+    mem = {}
+    args = []
+    for n, t in f.params:
+        if 'Option<&' in t and 'Vec<' in t:
+            lst = E.sym('htlcs', '&std::vec::Vec<(ln::chan_utils::HTLCOutputInCommitment, std::option::Option<std::boxed::Box<ln::channelmanager::HTLCSource>>)>', mem)
+            args.append(X.En('Option', 1, {1: [lst]}))
+        elif t.startswith('&') or t in ('u64', 'u32') or 'Txid' in t:
+            args.append(E.sym('a%d' % n, t, mem))
+        elif 'Option<u32>' in t:
+            args.append(E.sym('a%d' % n, 'Option<u32>', mem))
+        else:
+            args.append(X.Opaque('arg%d' % n))
+    point_known = z3.Bool('env.point_known')
+    pkgs, built = [], []
+
+    def which(v, mem_):
+        while isinstance(v, X.Ref):
+            ks = [st[1] for st in v.path if st[0] == 'i']
+            if ks:
+                return ks[-1]
+            v = E.read_path(mem_[v.cell], v.path, mem_, True, 'htlc')
+        raise X.Unsupported('cannot tell which HTLC %r is' % (v,))
+    match = [z3.Bool('htlc%d.hash_matches_preimage' % i) for i in range(NP)]
+
+    def h_hash_eq(E_, m, func, argv, guard, mem_, dty, caller):
+        k = which(argv[0], mem_)
+        r = match[k] if isinstance(k, int) else z3.Or(*[z3.And(k == i, match[i]) for i in range(NP)])
+        return X.B(z3.Not(r) if m.group(1) == 'ne' else r)
+
+    def deref(v, mem_):
+        while isinstance(v, X.Ref):
+            v = E.read_path(mem_[v.cell], v.path, mem_, True, 'spec')
+        return v
+    for rx, h in [
+        (r'get_point_for_commitment_number$', lambda *a: X.En('Option', z3.If(point_known, 1, 0), {1: [X.Adt('PublicKey', {}, base='the_point')]})),
+        (r'Vec::<(?:package::)?PackageTemplate>::new$', lambda *a: X.Seq([], 0, 'PackageTemplate')),
+        (r'PaymentHash as From<.*PaymentPreimage>>::from$', lambda *a: X.Adt('PaymentHash', {}, base='hash_of_preimage')),
+        (r'PaymentHash as PartialEq>::(eq|ne)$', h_hash_eq),
+        (r'(?:HTLCOutputInCommitment|ChannelTransactionParameters) as Clone>::clone$', lambda E_, m, func, argv, guard, mem_, dty, caller: deref(argv[0], mem_)),
+        (r'CounterpartyOfferedHTLCOutput::build$', lambda E_, m, func, argv, guard, mem_, dty, caller: (built.append((X.zbool(guard), argv)), X.Adt('CounterpartyOfferedHTLCOutput', {}, base='built%d' % len(built)))[1]),
+        (r'PackageTemplate::build_package$', lambda E_, m, func, argv, guard, mem_, dty, caller: (pkgs.append((X.zbool(guard), argv)), X.Adt('PackageTemplate', {}, base='pkg%d' % len(pkgs)))[1]),
+    ]:
+        E.models.insert(0, (re.compile(rx), h))
+    rv = S.call(E, f, args, mem)
+    ret = S.ret_guard
+    lst_v = mem[lst.cell]
+    n = lst_v.n
+    HO = D.struct_fields('HTLCOutputInCommitment')
+
+    def hf(i, nm, ty):
+        hv = E.read_path(lst_v.elems[i], (('f', 0, 'ln::chan_utils::HTLCOutputInCommitment'),), mem, True, 'spec')
+        return E.read_path(hv, (('f', HO.index(nm), ty),), mem, True, 'spec')
+    offered = [X.zbool(hf(i, 'offered', 'bool').t) for i in range(NP)]
+    cltv = [hf(i, 'cltv_expiry', 'u32').t for i in range(NP)]
+    toi = [hf(i, 'transaction_output_index', 'Option<u32>') for i in range(NP)]
+    has_idx = [X.zint(t.d) == 1 for t in toi]
+    idx = [E.en_payload(t, 'Some', 1, 0, 'u32', mem, 'spec').t for t in toi]
+    want = [z3.And(point_known, n > i, has_idx[i], offered[i], match[i]) for i in range(NP)]
+    if not isinstance(rv, X.Seq):
+        raise X.Unsupported('expected the collected claims as a sequence, got %r; %s' % (rv, [w for g_, w in E.unsupported][:3]))
+    n_out = rv.n
+    n_want = sum([z3.If(w, 1, 0) for w in want])
+    # every package built belongs to one HTLC: vout == that HTLC's index and height == its cltv, under that HTLC's condition
+    shape = z3.And(*[z3.Implies(g, z3.Or(*[z3.And(want[i], a[1].t == idx[i], a[3].t == cltv[i]) for i in range(NP)])) for g, a in pkgs]) if pkgs else z3.BoolVal(True)
+    panic = z3.Or(*[X.zbool(p[0]) for p in E.panics]) if E.panics else False
+    live = z3.And(point_known, n == 2, *[z3.And(has_idx[i], offered[i], match[i]) for i in range(NP)])
+    b = Binding('late_preimage_same_hash_probe', [z3.If(live, 1, 0)], [n_out], line_fn=lambda v: '', which='oracle_tu', panic=panic, via_solver=True, domain=[(1, 1)])
+    S.prove(ids[0], E, [], z3.And(ret, n_out == n_want, shape),
+            'when the preimage arrives after the counterparty commitment confirmed, every HTLC it unlocks (offered to us, with an output, paying to that hash) gets its own claim for (commitment txid, its output index) with its CLTV expiry as the counterparty-spendable height - also when several HTLCs share the payment hash - and no other HTLC does',
+            [b], bounds='<= %d HTLCs in the commitment; commitment point lookup, hashing, cloning and package constructors stubbed' % NP)
+    S.no_panic(ids[1], E, [], 'total', [b])
+    S.witness(ids[2], E, [live], n_out == 2)
+    S.validate(ids[3], E, b, n=1, extra_vectors=[(1,)])
